@@ -204,6 +204,8 @@ class OptimizerGeneric:
             for idvar, var in enumerate(self.problem.variables):
                 var.update(x0[idvar])
             self._x.pop(-1)
+            # pickups and solves follow the restored variables
+            self.problem.update_optics()
 
     def _fun(self, x):
         """
